@@ -36,7 +36,7 @@ def _quantify(i, rng, f):
         return [q for ch in f.children() for q in _quantify(i, rng, ch)]
     ivs = i if isinstance(i, list) else [i]
     if z3.is_quantifier(f) and f.is_forall():
-        vs = [z3.FreshConst(f.var_sort(k), "qv") for k in range(f.num_vars())]
+        vs = [bound_var("qv", f.var_sort(k)) for k in range(f.num_vars())]
         body = z3.substitute_vars(f.body(), *reversed(vs))
         if z3.is_implies(body):
             return _quantify(ivs + vs, z3.And(rng, body.arg(0)), body.arg(1))
@@ -757,6 +757,33 @@ class Interp(StmtMixin):
             s_ok = st.assume(z3.Not(SList.is_Nil(items)))
             if self.feasible(s_ok):
                 yield s_ok, Val(sfirst(items), "sexp")
+            return
+        if base.ty in ("sexp", "slist") and idx.ty == "int":
+            # l[i] at a non-negative (symbolic) position of a parsed expression list: snth; an atom indexed like this is a string
+            from .sorts import snth, slen
+            if base.ty == "sexp":
+                if self.spec_mode:
+                    yield st, Val(snth(SExp.items(base.t), idx.t), "sexp")
+                    return
+                s_atom = st.assume(SExp.is_Atom(base.t))
+                if self.feasible(s_atom):
+                    raise Unsupported("symbolic index into something that may be an atom (string)")
+                st = st.assume(SExp.is_Lst(base.t))
+                items = SExp.items(base.t)
+            else:
+                items = base.t
+            if self.spec_mode:
+                yield st, Val(snth(items, idx.t), "sexp")
+                return
+            s_neg = st.assume(idx.t < 0)
+            if self.feasible(s_neg):
+                raise Unsupported("possibly negative index into an expression list")
+            s_bad = st.assume(idx.t >= slen(items))
+            if self.feasible(s_bad):
+                yield s_bad, Raise("IndexError", line)
+            s_ok = st.assume(z3.And(idx.t >= 0, idx.t < slen(items)))
+            if self.feasible(s_ok):
+                yield s_ok, Val(snth(items, idx.t), "sexp")
             return
         if base.ty == "tree_children":
             # anytree children tuple: Op has exactly two children, leaves none
